@@ -16,15 +16,17 @@ def _funcs():
             m.Block1014.write, m.Block1014.seek, m.Block1014.finalise, m.VbsReader.__next__]
 
 
-def history(writer, blocked, nrec, fins, maxlen, readable=True):
+def history(writer, blocked, nrec, fins, maxlen, readable=True, optimize=0):
     nblocks = (nrec * (maxlen + 4) + 4 * (1 + len(fins))) // 1012 + 2 + len(fins)
 
     def h():
         core.FUEL.set(nblocks + 4)
-        m = M().mciipm
+        m = M(optimize=optimize).mciipm
         f = RopeFile(readable=readable)
         ns = [sym_int('len%d' % i, 1, maxlen) for i in range(nrec)]
         rp = {'kind': 'history', 'args': {'writer': writer, 'blocked': blocked, 'lengths': [ev(n) for n in ns], 'fins': list(fins), 'readable': readable}}
+        if optimize:
+            rp['mode'] = '-O'
         core.set_fallback(rp, 'C11/concretised')
         if writer == 'vbs':
             w = m.VbsWriter(f, blocked=blocked)
@@ -50,6 +52,8 @@ def history(writer, blocked, nrec, fins, maxlen, readable=True):
             if k == 0:
                 snap = f.getvalue()
         final = f.getvalue()
+        if readable:
+            require(same_int(f.pos, 0), 'the finalised file is not left at its start', key='C11/rewind', replay=rp)
         if blocked and writer == 'vbs':
             from .c03 import stream_of
             check_blocked(final, stream_of(recs), True, nblocks + 2, 'finalised blocked file', key='C11/blocked-form', replay=rp)
@@ -99,6 +103,12 @@ def obligations(tier):
         for fins in (('close',), ('exit',), ('close', 'exit')):
             obs.append(Ob('%s/blocked/write-only-file/1rec/%s' % (writer, '+'.join(fins)), history(writer, True, 1, fins, 2500 if writer == 'vbs' else 99, readable=False), 120,
                           'file object opened write-only (readable() is False), blocked output', _funcs))
+    for writer in ('vbs', 'ipm'):
+        for blocked in (False, True):
+            for fins in (('close',), ('exit',), ('close', 'exit')):
+                obs.append(Ob('%s/%s/1rec/%s/python-O' % (writer, 'blocked' if blocked else 'unblocked', '+'.join(fins)),
+                              history(writer, blocked, 1, fins, 2500 if writer == 'vbs' else 99, optimize=1), 120,
+                              'the same under python -O (module compiled with optimize=1: assert statements removed), replayed in a python -O subprocess', _funcs))
     for blocked in (False, True):
         for fins in (('close', 'with'), ('exit', 'with'), ('with', 'with'), ('close', 'with', 'close')):
             obs.append(Ob('vbs/%s/1rec/%s' % ('blocked' if blocked else 'unblocked', '+'.join(fins)), history('vbs', blocked, 1, fins, 2500), 120,
